@@ -5992,7 +5992,18 @@ func ruleDefinitionsKeyedByIdentity(c *core.Ctx) {
 		var bareName func(e ast.Expr, depth int) bool
 		bareName = func(e ast.Expr, depth int) bool {
 			switch x := ast.Unparen(e).(type) {
+			case *ast.BinaryExpr:
+				// a key concatenated from parts: unqualified if a part is
+				if x.Op == token.ADD {
+					return bareName(x.X, depth) || bareName(x.Y, depth)
+				}
 			case *ast.CallExpr:
+				// TypeToShortSyntax(t, false): the spelling of a type WITHOUT namespaces
+				if f := core.Callee(info, x); f != nil && f.Name() == "TypeToShortSyntax" && len(x.Args) == 2 {
+					if tv, ok := info.Types[x.Args[1]]; ok && tv.Value != nil && tv.Value.Kind() == constant.Bool && !constant.BoolVal(tv.Value) {
+						return true
+					}
+				}
 				// a helper of the package that builds the key from the bare name of a definition it is given
 				// (`instantiationName(meta)` = meta.Name + "<" + args + ">"), without the namespace
 				f := core.Callee(info, x)
